@@ -8,7 +8,7 @@ from pathlib import Path
 S = Path(__file__).resolve().parents[1] / "seeded"
 reg = json.loads((S / "regression.json").read_text()) if (S / "regression.json").exists() else {}
 r7 = json.loads((S / "round7.json").read_text()) if (S / "round7.json").exists() else {}
-for later in ("round9.json", "round10.json"):
+for later in ("round9.json", "round10.json", "round11.json"):
     if (S / later).exists():
         r7.update(json.loads((S / later).read_text()))
 for d in sorted(S.iterdir()):
